@@ -28,6 +28,11 @@ def _cv(v):
         return "s:%s" % str(v)
     if v is None:
         return "n:"
+    if tn in ("datetime64", "Timestamp", "datetime"):
+        import numpy as np
+        if hasattr(v, "to_datetime64"):
+            v = v.to_datetime64()          # (pandas Timestamp: keeps the nanoseconds)
+        return "d:%d" % int(np.datetime64(v, "ns").astype("int64"))     # one spelling for numpy / pandas / stdlib dates
     if isinstance(v, (list, tuple)):
         return "l:[%s]" % ",".join(_cv(x) for x in v)
     return "o:%s" % (repr(v),)
